@@ -270,6 +270,18 @@ def record_eml(seed):
             ds.add_child(x)
         for x in (empty_def, holder, ref):
             w.track(x)
+        # ... and one element holding SEVERAL references nodes (to a definition with two children, to the empty one, again)
+        def2 = Node("associatedParty")
+        def2.add_attribute("id", "two-children-def")
+        def2.add_child(Node("organizationName", content="o"))
+        def2.add_child(Node("role", content="r"))
+        multi = Node("associatedParty")
+        for tgt in (["two-children-def", "empty-def-1", "two-children-def"] if rnd.random() < 0.5 else ["empty-def-1", "two-children-def"]):
+            multi.add_child(Node("references", content=tgt))
+        multi.add_child(Node("role", content="own"))
+        for x in (def2, multi):
+            ds.add_child(x)
+            w.track_tree(x)
         tr["events"].append({"op": "resync", "args": [], "ok": True, "ret": 0, "post": slim(w.pi(all_fields()))})
     try:
         references.expand(root)
